@@ -114,7 +114,16 @@ def h_params(nb, sym):
     e.reach('params')
     s = _as_sym(sc).terms()[0]
     e.check('C17.params.scale_positive', z3.fpGT(s, _fp(0)))
-    e.check('C17.params.scale_finite', _finite(s))
+    # the region where max(max,0)-min(min,0) overflows float32 is a recorded
+    # known finding; it is split off so that it cannot mask any other witness.
+    zero = _fp(0)
+    bmax = z3.If(z3.fpGEQ(mx.el[0], zero), mx.el[0], zero)
+    bmin = z3.If(z3.fpLEQ(mn.el[0], zero), mn.el[0], zero)
+    ovf_region = z3.fpIsInf(z3.fpSub(B.RNE, bmax, bmin))
+    e.check('C17.params.scale_finite',
+            z3.Implies(z3.Not(ovf_region), _finite(s)))
+    e.check('C17.params.scale_finite[range>FLT_MAX]',
+            z3.Implies(ovf_region, _finite(s)))
     e.check('C17.params.scale_dtype_f32', _as_sym(sc).dtype == np.float32)
     qmin, qmax = -(2 ** (nb - 1)), 2 ** (nb - 1) - 1
     z = _int_term(_as_sym(zp))
@@ -1040,7 +1049,7 @@ def _replay_lib(c, d, ob, kind, nb, sym):
     qmin, qmax = -(2 ** (nb - 1)), 2 ** (nb - 1) - 1
     lo, hi = _qrange(nb, sym)
     what = f'num_bits={nb} symmetric={sym} min={mn[0]!r} max={mx[0]!r}'
-    if ob == 'C17.params.scale_finite':
+    if ob.startswith('C17.params.scale_finite'):
       bad = not np.isfinite(sc[0])
       wc = ('range wider than FLT_MAX: max(max,0)-min(min,0) overflows '
             'float32'
